@@ -67,6 +67,9 @@ func main() {
 		}
 		ms := prog.ModSetOf(fn)
 		fmt.Println("all:", ms.all, "unknown:", ms.unknown)
+		fmt.Println("cells:", sortedKeys(ms.cells))
+		fmt.Println("fresh:", sortedKeys(ms.fresh))
+		fmt.Println("capOnly:", prog.capOnlyOf(fn))
 		for _, k := range sortedKeys(ms.sites) {
 			fmt.Println(" ", k, ms.sites[k])
 		}
